@@ -1,0 +1,112 @@
+// Verification seam (compiled only with `--cfg hotstuff_verif`).
+//
+// Stand-ins for `tokio::net::{TcpListener, TcpStream}` that delegate to a backend installed
+// per thread by a simulation harness, plus the two other sources of nondeterminism the
+// network layer and its users read: the wall clock and OS entropy. Without the cfg flag
+// this file is not part of the crate and the shipped behaviour is unchanged.
+use std::cell::RefCell;
+use std::future::Future;
+use std::io;
+use std::net::SocketAddr;
+use std::pin::Pin;
+use std::sync::Arc;
+use std::task::{Context, Poll};
+use tokio::io::{AsyncRead, AsyncWrite, ReadBuf};
+
+/// A bidirectional byte stream provided by the backend.
+pub trait StreamImpl: AsyncRead + AsyncWrite + Send + Unpin {}
+impl<T: AsyncRead + AsyncWrite + Send + Unpin> StreamImpl for T {}
+
+/// A listening socket provided by the backend.
+pub trait ListenerImpl: Send + Sync {
+    fn poll_accept(
+        &self,
+        cx: &mut Context<'_>,
+    ) -> Poll<io::Result<(Box<dyn StreamImpl>, SocketAddr)>>;
+}
+
+pub type ConnectFuture = Pin<Box<dyn Future<Output = io::Result<Box<dyn StreamImpl>>> + Send>>;
+
+/// Everything the simulator owns.
+pub trait Backend: Send + Sync {
+    fn bind(&self, address: SocketAddr) -> io::Result<Box<dyn ListenerImpl>>;
+    fn connect(&self, address: SocketAddr) -> ConnectFuture;
+    /// Milliseconds since the UNIX epoch, as the simulated wall clock sees it.
+    fn now_millis(&self) -> u128;
+    /// Seed for the next `SmallRng` created by a sender.
+    fn next_seed(&self) -> u64;
+}
+
+thread_local! {
+    static BACKEND: RefCell<Option<Arc<dyn Backend>>> = RefCell::new(None);
+}
+
+/// Install (or remove) the backend of the current thread.
+pub fn install(backend: Option<Arc<dyn Backend>>) {
+    BACKEND.with(|b| *b.borrow_mut() = backend);
+}
+
+fn backend() -> Arc<dyn Backend> {
+    BACKEND
+        .with(|b| b.borrow().clone())
+        .expect("hotstuff_verif: no simulation backend installed on this thread")
+}
+
+pub fn now_millis() -> u128 {
+    backend().now_millis()
+}
+
+pub fn next_seed() -> u64 {
+    backend().next_seed()
+}
+
+pub struct TcpStream(Box<dyn StreamImpl>);
+
+impl TcpStream {
+    pub async fn connect(address: SocketAddr) -> io::Result<Self> {
+        let future = backend().connect(address);
+        future.await.map(Self)
+    }
+}
+
+impl AsyncRead for TcpStream {
+    fn poll_read(
+        mut self: Pin<&mut Self>,
+        cx: &mut Context<'_>,
+        buf: &mut ReadBuf<'_>,
+    ) -> Poll<io::Result<()>> {
+        Pin::new(&mut *self.0).poll_read(cx, buf)
+    }
+}
+
+impl AsyncWrite for TcpStream {
+    fn poll_write(
+        mut self: Pin<&mut Self>,
+        cx: &mut Context<'_>,
+        buf: &[u8],
+    ) -> Poll<io::Result<usize>> {
+        Pin::new(&mut *self.0).poll_write(cx, buf)
+    }
+
+    fn poll_flush(mut self: Pin<&mut Self>, cx: &mut Context<'_>) -> Poll<io::Result<()>> {
+        Pin::new(&mut *self.0).poll_flush(cx)
+    }
+
+    fn poll_shutdown(mut self: Pin<&mut Self>, cx: &mut Context<'_>) -> Poll<io::Result<()>> {
+        Pin::new(&mut *self.0).poll_shutdown(cx)
+    }
+}
+
+pub struct TcpListener(Box<dyn ListenerImpl>);
+
+impl TcpListener {
+    pub async fn bind(address: &SocketAddr) -> io::Result<Self> {
+        backend().bind(*address).map(Self)
+    }
+
+    pub async fn accept(&self) -> io::Result<(TcpStream, SocketAddr)> {
+        std::future::poll_fn(|cx| self.0.poll_accept(cx))
+            .await
+            .map(|(stream, peer)| (TcpStream(stream), peer))
+    }
+}
